@@ -1,6 +1,6 @@
 # C12 - scheduler: never early, in deadline order, cancel hits exactly its target
 import re
-from ..core import norm, relloc, live, calls, evs, Broken, value_origin, Tracer, fmt_trace, rooted, has_back_edge, cond_event, efield
+from ..core import norm, relloc, live, calls, evs, Broken, value_origin, Tracer, fmt_trace, rooted, has_back_edge, cond_event, efield, pos
 from .. import locks
 from ..rules import *
 from .tables import GUARDED
@@ -79,10 +79,19 @@ def heap_discipline(ctx, db):
                 if len(args) < 3 or 'compare_item' not in (args[2].get('path') or ''):
                     bad = bad or ('the heap operation does not use the scheduler\'s comparator', tr)
             ctx.ob(rid, f, f['key'], bad is None, '%s: %s then %s with compare_item' % (name.split('::')[-1], first[0], second) + ('' if not bad else ' -- ' + bad[0]), desc=bad[0] if bad else None)
-    for f in db.need('cocls::scheduler::compare_item')[:1]:
-        c = [e for e in f.events() if e.k == 'cmp' and e.get('op') in ('<', '>')]
-        ok = len(c) == 1 and ((c[0]['op'] == '>' and (c[0].get('lhs'), c[0].get('rhs')) == ('param:a._tp', 'param:b._tp')) or
-                              (c[0]['op'] == '<' and (c[0].get('lhs'), c[0].get('rhs')) == ('param:b._tp', 'param:a._tp')))
+    comps = db.fns('cocls::scheduler::compare_item')
+    if not comps:
+        # the comparator may be a class-scope closure object (static constexpr auto compare_item = [](a, b){...})
+        comps = [g for g in db.all_instances() if g.get('lambda') and not g.get('parent_key') and g['nname'].startswith('cocls::scheduler::(anonymous class)::operator()')
+                 and len(g.get('params') or []) == 2 and any(e.k == 'cmp' and '_tp' in (e.get('lhs') or '') for e in g.events())]
+    if not comps:
+        comps = db.need('cocls::scheduler::compare_item')
+    for f in comps[:1]:
+        pn = [(x.get('name') if isinstance(x, dict) else x) for x in (f.get('params') or [])]
+        a, b = ('param:%s._tp' % pn[0], 'param:%s._tp' % pn[1]) if len(pn) == 2 else ('param:a._tp', 'param:b._tp')
+        c = [e for e in f.events() if e.k == 'cmp' and e.get('op') in ('<', '>', '<=', '>=')]
+        ok = len(c) == 1 and ((c[0]['op'] == '>' and (c[0].get('lhs'), c[0].get('rhs')) == (a, b)) or
+                              (c[0]['op'] == '<' and (c[0].get('lhs'), c[0].get('rhs')) == (b, a)))
         ctx.ob(rid, f, f['key'], ok, 'compare_item orders by a._tp > b._tp (min-heap on the time point)', desc='comparator is not a._tp > b._tp')
 
 
@@ -213,28 +222,46 @@ def schedule_notifies(ctx, db):
                     if ce is not None and ce.k == 'call' and op(ce) == 'empty' and norm(ce.get('field') or '') == S and i < pb:
                         was_empty = bool(it.val)
                     if re.fullmatch(r'local:\w+', it.get('opath') or it.path or '') and it.term == 'IfStmt':
-                        flag = bool(it.val)
+                        flag = bool(it.get('oval', it.val))
             cmp_after = [it for it in tr[pb:] if is_top_access(it)] if pb >= 0 else []
             if pb < 0:
                 bad = bad or ('the entry is not inserted', tr); continue
-            # direction of the decision: the worker must be woken when the current top is LATER than the new entry
-            for it in tr[:pb]:
-                if it.k == 'cmp' and it.get('op') in ('<', '>', '<=', '>='):
-                    l_, r_ = it.get('lhs') or '', it.get('rhs') or ''
-                    top_l = bool(re.search(TOP_TP, l_)); top_r = bool(re.search(TOP_TP, r_))
-                    if top_l == top_r:
-                        continue
-                    later = it['op'] in ('>', '>=') if top_l else it['op'] in ('<', '<=')
-                    if not later:
-                        bad = bad or ('the decision compares the wrong way round (%s %s %s): the worker is woken for entries later than the current top, not for earlier ones' % (l_, it['op'], r_), tr)
+            # what the branches taken say about (current top) vs (new entry): the subset of {<, =, >} that is still possible
+            rel = None
+            for i, it in enumerate(tr):
+                if it.k != 'branch':
+                    continue
+                ce = cond_event(tr, i)
+                if ce is None or ce.k != 'cmp' or ce.get('op') not in ('<', '>', '<=', '>='):
+                    continue
+                l_, r_ = ce.get('lhs') or '', ce.get('rhs') or ''
+                top_l = bool(re.search(TOP_TP, l_)); top_r = bool(re.search(TOP_TP, r_))
+                if top_l == top_r:
+                    continue
+                o = ce['op'] if top_l else {'<': '>', '>': '<', '<=': '>=', '>=': '<='}[ce['op']]
+                r = {'>': {'>'}, '>=': {'>', '='}, '<': {'<'}, '<=': {'<', '='}}[o]
+                if not it.val:
+                    r = {'<', '=', '>'} - r
+                rel = r if rel is None else (rel & r)
+            if rel is None:
+                # direction of the decision when it is not branched on directly: the worker must be woken when the current top is LATER than the new entry
+                for it in tr[:pb]:
+                    if it.k == 'cmp' and it.get('op') in ('<', '>', '<=', '>='):
+                        l_, r_ = it.get('lhs') or '', it.get('rhs') or ''
+                        top_l = bool(re.search(TOP_TP, l_)); top_r = bool(re.search(TOP_TP, r_))
+                        if top_l == top_r:
+                            continue
+                        later = it['op'] in ('>', '>=') if top_l else it['op'] in ('<', '<=')
+                        if not later:
+                            bad = bad or ('the decision compares the wrong way round (%s %s %s): the worker is woken for entries later than the current top, not for earlier ones' % (l_, it['op'], r_), tr)
             if cmp_after:
                 bad = bad or ('"is the new entry the earliest" is evaluated after the insertion', tr)
-            if was_empty is True and flag is False:
+            if was_empty is True and flag is False and rel is None:
                 continue       # infeasible: empty heap makes the flag true
-            if (was_empty is True or flag is True):
+            if was_empty is True or (rel is not None and '>' in rel) or (rel is None and flag is True):
                 nn += 1
                 if not ntf:
-                    bad = bad or ('the worker is not notified although the new entry is the earliest', tr)
+                    bad = bad or ('the worker is not notified although the new entry is the earliest' + ('' if rel is None or was_empty else ' (the current top is later than the new entry on this path)'), tr)
         if nn == 0 and not bad:
             bad = ('no path notifies the worker', trs[0] if trs else [])
         if not bad and not any(it.k == 'cmp' and re.search(TOP_TP, (it.get('lhs') or '')) != re.search(TOP_TP, (it.get('rhs') or '')) and (re.search(TOP_TP, (it.get('lhs') or '')) or re.search(TOP_TP, (it.get('rhs') or ''))) for tr in trs for it in tr):
@@ -383,7 +410,7 @@ def interval_ident(ctx, db):
                     if b.k == 'co_yield':
                         break
                     if b.k == 'branch':
-                        ce = cond_event(tr, tr.index(b))
+                        ce = cond_event(tr, pos(tr, b))
                         if ce is not None and ce.k == 'call' and norm(ce.get('callee') or '') == 'std::stop_token::stop_requested' and b.val is False:
                             polled = True; break
                 if not polled:
